@@ -6,6 +6,7 @@ import (
 	"runtime"
 	"runtime/pprof"
 	"strings"
+	"sync/atomic"
 	"time"
 )
 
@@ -46,9 +47,35 @@ func WaitCond(cond func() bool, activity func() int64, soft, hard time.Duration)
 	for time.Since(start) < hard {
 		a0 := activity()
 		stable := true
+		// Unchanged counters are a wall-clock observation: on an overloaded
+		// machine a goroutine can sit in a 100 µs sleep or in the run queue
+		// for hundreds of milliseconds. A probe goroutine measures how late
+		// short sleeps wake up during the window; a window in which the
+		// scheduler was that late decides nothing.
+		probeStop := make(chan struct{})
+		var worstLag int64
+		go func() {
+			for {
+				select {
+				case <-probeStop:
+					return
+				default:
+				}
+				t0 := time.Now()
+				time.Sleep(100 * time.Microsecond)
+				if lag := int64(time.Since(t0)); lag > atomic.LoadInt64(&worstLag) {
+					atomic.StoreInt64(&worstLag, lag)
+				}
+			}
+		}()
 		for k := 0; k < 3; k++ {
+			t0 := time.Now()
 			time.Sleep(150 * time.Millisecond)
+			if lag := int64(time.Since(t0)) - int64(150*time.Millisecond); lag > atomic.LoadInt64(&worstLag) {
+				atomic.StoreInt64(&worstLag, lag)
+			}
 			if cond() {
+				close(probeStop)
 				return Reached
 			}
 			if activity() != a0 {
@@ -56,9 +83,16 @@ func WaitCond(cond func() bool, activity func() int64, soft, hard time.Duration)
 				break
 			}
 		}
+		close(probeStop)
+		if stable && atomic.LoadInt64(&worstLag) > int64(25*time.Millisecond) {
+			stable = false // scheduler too late to trust this window
+		}
 		if stable {
 			if cond() {
 				return Reached
+			}
+			if StrictGoroutineGuard && BusyGoroutines() > 0 {
+				continue
 			}
 			return QuiescentNot
 		}
@@ -132,4 +166,36 @@ func GoroutineCount() int {
 	var b bytes.Buffer
 	_ = pprof.Lookup("goroutine").WriteTo(&b, 0)
 	return runtime.NumGoroutine()
+}
+
+var goroutineHeader = regexp.MustCompile(`^goroutine \d+ \[([^\],:]+)`)
+
+// StrictGoroutineGuard, when set by a check that runs one scenario at a time
+// per process, additionally requires that no goroutine with a thunder or
+// harness frame is running, runnable or sleeping before a quiescent verdict.
+var StrictGoroutineGuard = false
+
+// BusyGoroutines counts goroutines (other than the caller of WaitCond) that
+// have a thunder or harness frame and are not parked on a channel, lock,
+// condition variable or timer-less wait: states running, runnable, sleep,
+// syscall. A parked system has none.
+func BusyGoroutines() int {
+	n := 0
+	for _, g := range strings.Split(Stacks(), "\n\n") {
+		if !strings.Contains(g, "samsarahq/thunder") {
+			continue
+		}
+		if strings.Contains(g, "vlib.BusyGoroutines") {
+			continue
+		}
+		m := goroutineHeader.FindStringSubmatch(g)
+		if m == nil {
+			continue
+		}
+		switch strings.TrimSpace(m[1]) {
+		case "running", "runnable", "sleep", "syscall":
+			n++
+		}
+	}
+	return n
 }
